@@ -77,6 +77,79 @@ theorem c06_remove_decreases (x : Nat) (t : T) (h : t.hasBelow x = true) : (t.re
   refine (size_replace_le x (fun _ => []) ?_ t).2 h
   intro c _; rw [T.size_eq]; simp only [sizeL]; omega
 
+/-! ### `remove_breaking_returns`: `while changed:` look at four places around a block node (first leaf, last leaf, next,
+previous) and remove those that are line breaks.  The search itself is not modelled; whatever it is, the loop ends as
+long as a non-empty result always contains a node of the tree — which `try_remove_node` needs anyway to remove anything. -/
+
+mutual
+  theorem replace_of_not_has (x : Nat) (f : T → List T) : ∀ t : T, t.hasBelow x = false → t.replace x f = t
+    | .node i k ws cs, h => by
+      simp only [T.hasBelow] at h
+      simp only [T.replace, replaceL_of_not_has x f cs h]
+  theorem replaceL_of_not_has (x : Nat) (f : T → List T) : ∀ cs : List T, hasL x cs = false → replaceL x f cs = cs
+    | [], _ => rfl
+    | c :: cs, h => by
+      simp only [hasL, Bool.or_eq_false_iff, decide_eq_false_iff_not] at h
+      obtain ⟨⟨h1, h2⟩, h3⟩ := h
+      simp only [replaceL, h1, if_false, replace_of_not_has x f c h2, replaceL_of_not_has x f cs h3]
+      rfl
+end
+
+theorem remove_size_le (x : Nat) (t : T) : (t.remove x).size ≤ t.size :=
+  (size_replace_le x (fun _ => []) (by intro c _; rw [T.size_eq]; simp only [sizeL]; omega) t).1
+
+/-- removing all candidates, one after the other (`try_remove_node` for each entry of `check_node`). -/
+def removeAll (xs : List Nat) (t : T) : T := xs.foldl (fun t x => t.remove x) t
+
+theorem removeAll_size_le : ∀ (xs : List Nat) (t : T), (removeAll xs t).size ≤ t.size
+  | [], _ => Nat.le_refl _
+  | x :: xs, t => by
+    unfold removeAll
+    rw [List.foldl_cons]
+    exact Nat.le_trans (removeAll_size_le xs (t.remove x)) (remove_size_le x t)
+
+/-- if one of the candidates is a node of the tree (not the root), removing them all makes the tree smaller. -/
+theorem removeAll_size_lt : ∀ (xs : List Nat) (t : T), (∃ x ∈ xs, t.hasBelow x = true) → (removeAll xs t).size < t.size
+  | [], _, h => by obtain ⟨x, hx, _⟩ := h; simp at hx
+  | y :: xs, t, h => by
+    unfold removeAll
+    rw [List.foldl_cons]
+    by_cases hy : t.hasBelow y = true
+    · exact Nat.lt_of_le_of_lt (removeAll_size_le xs (t.remove y)) (c06_remove_decreases y t hy)
+    · have hy' : t.hasBelow y = false := by simpa using hy
+      have e : t.remove y = t := replace_of_not_has y _ t hy'
+      rw [e]
+      obtain ⟨x, hx, hb⟩ := h
+      rcases List.mem_cons.mp hx with rfl | hx'
+      · rw [hb] at hy'; cases hy'
+      · exact removeAll_size_lt xs t ⟨x, hx', hb⟩
+
+/-- a loop of the shape of `remove_breaking_returns`: as long as the candidate search finds something, remove it. -/
+def removeLoop (cand : T → List Nat) : Nat → T → T
+  | 0, t => t
+  | n + 1, t => if cand t = [] then t else removeLoop cand n (removeAll (cand t) t)
+
+/-- **C06 (`remove_breaking_returns` ends; a loop that removes what its search finds ends)**: whatever the search is, if a non-empty result always
+contains a node of the tree, the search comes back empty within `size` rounds. -/
+theorem removeLoop_fixed (cand : T → List Nat) (hc : ∀ t, cand t ≠ [] → ∃ x ∈ cand t, t.hasBelow x = true) :
+    ∀ (n : Nat) (t : T), t.size ≤ n + 1 → cand (removeLoop cand n t) = []
+  | 0, t, h => by
+    simp only [removeLoop]
+    by_cases he : cand t = []
+    · exact he
+    · exfalso
+      have h1 := removeAll_size_lt (cand t) t (hc t he)
+      have h2 := size_pos (removeAll (cand t) t)
+      omega
+  | n + 1, t, h => by
+    simp only [removeLoop]
+    split
+    · assumption
+    · rename_i he
+      have h1 := removeAll_size_lt (cand t) t (hc t he)
+      exact removeLoop_fixed cand hc n _ (by omega)
+
+
 /-- **C06 (`fix_paragraphs` reaches its fixed point).**  The loop `while self._fix_paragraphs(node)`
 ends: a round keeps the number of nodes and strictly increases the sum of all node depths, which
 never exceeds the square of the number of nodes; after at most that many rounds nothing is left
